@@ -650,11 +650,11 @@ func (s *c14Subject) involved(c readCall, b callResult) (lo, hi int) {
 		return 0, last
 	case "GetByTime":
 		if len(b.msgs) == 1 {
-			i := s.segOf(b.msgs[0].Offset) - 1
-			if i < 0 {
-				i = 0
-			}
-			return i, last
+			// the walk passes through newer segments on their index alone; log files are read of the
+			// segment holding the answer and, when the answer is the first message of its segment
+			// (reached by the hand-over from the previous one, or a run of equal times), its neighbours
+			i := s.segOf(b.msgs[0].Offset)
+			return maxInt(i-1, 0), minInt(i+1, last)
 		}
 		return 0, last
 	case "ConsumeByKey":
@@ -748,6 +748,28 @@ func genC14Damages(s *c14Subject, r *Rand, thorough bool) []c14Damage {
 				}
 				out = append(out, c14Damage{seg: si, kind: "overwrite-" + pat, log: c, from: f, to: t, overwrite: true})
 			}
+		}
+		// crafted: both length fields large and positive so that their sum no longer fits 31 bits
+		for _, sp := range seg.spans {
+			for _, hi := range [][2]byte{{0x40, 0x40}, {0x7f, 0x7f}, {0x7f, 0x01}} {
+				c := append([]byte(nil), seg.log...)
+				c[sp.Start+20], c[sp.Start+24] = hi[0], hi[1]
+				out = append(out, c14Damage{seg: si, kind: "overwrite-lengths-crafted", log: c, from: sp.Start + 20, to: sp.Start + 25, overwrite: true, lengthFlip: true})
+			}
+		}
+		// the whole file (or everything from a record boundary on) filled with zeros, length kept
+		for _, p := range append([]int{0, ref.FileHeaderSize}, func() []int {
+			var b []int
+			for _, sp := range seg.spans[1:] {
+				b = append(b, sp.Start)
+			}
+			return b
+		}()...) {
+			c := append([]byte(nil), seg.log...)
+			for i := p; i < L; i++ {
+				c[i] = 0
+			}
+			out = append(out, c14Damage{seg: si, kind: "zero-fill-to-end", log: c, from: p, to: L, overwrite: true})
 		}
 		// truncation to every length
 		for n := 0; n < L; n++ {
@@ -861,6 +883,7 @@ func runC14(cfg *RunCfg, rep *Reporter, cov *Cov) {
 			cov.Add("evaluations", 1)
 			cov.Add("outcome.alloc-measured", 1)
 			if delta := ms.TotalAlloc - before; delta > c14AllocBound+64*fileSize {
+				defer func() {}()
 				rep.Report(Violation{Property: "C14", Sig: "dmgmon|alloc:" + c.kind, What: fmt.Sprintf("%s allocated %d bytes on a %d-byte file with a damaged length field (bound 64 MiB + 64 x file + 1 MiB)", c, delta, fileSize),
 					Replay: map[string]any{"subject": j.s, "damage": d.kind, "from": d.from, "segment": d.seg, "seed": cfg.Seed}})
 			}
@@ -886,7 +909,14 @@ func c14One(cfg *RunCfg, rep *Reporter, cov *Cov, s *c14Subject, si int, d c14Da
 	seg := s.segs[d.seg]
 	pc := c14PosClass(seg, d)
 	role := []string{"oldest", "middle", "head"}[d.seg]
+	// state predicate of a known format weakness: V1 files carry no magic, they are recognised by their
+	// first 8 bytes equalling the base offset - a log of the base-0 segment whose beginning is zero
+	// filled therefore reads as a V1 file of empty records (offset 0, time 0, CRC of nothing = 0)
+	v1Misparse := seg.base == 0 && d.from == 0 && len(d.log) >= 8 && bytes.Equal(d.log[:8], make([]byte, 8))
 	report := func(sig, what string, c *readCall) {
+		if v1Misparse {
+			sig = "v1-misparse(zero-filled log of the base-0 segment)"
+		}
 		rp := map[string]any{"subject": si, "segment": d.seg, "damage": d.kind, "from": d.from, "to": d.to, "pos_class": pc, "seed": cfg.Seed,
 			"segment_bases": []int64{s.segs[0].base, s.segs[1].base, s.segs[2].base}, "damaged_log_hex": fmt.Sprintf("%x", d.log), "messages": msgSummaries(s.msgs), "cfg": s.cfg.String()}
 		if c != nil {
@@ -935,7 +965,7 @@ func c14One(cfg *RunCfg, rep *Reporter, cov *Cov, s *c14Subject, si int, d c14Da
 		if g.err != "" {
 			verdict = "c-error"
 		}
-		if d.overwrite && d.from >= ref.FileHeaderSize {
+		if d.overwrite {
 			hit := false
 			for _, m := range b.msgs {
 				if R[m.Offset] {
@@ -944,6 +974,9 @@ func c14One(cfg *RunCfg, rep *Reporter, cov *Cov, s *c14Subject, si int, d c14Da
 			}
 			lo, hi := s.involved(c, b)
 			switch {
+			case d.from < ref.FileHeaderSize && !(d.seg < lo || d.seg > hi):
+				// damage of the file header: no record is overwritten; calls that read this file may
+				// fail or not, only wrong data (checked above) is ruled out
 			case hit:
 				verdict = "a-must-fail"
 				if g.err == "" {
